@@ -72,7 +72,8 @@ META["C06"] = {
     "note": "Exhaustive over forests on 4/5 names and their renderings; larger forests random. The forest is read from the "
             "same tokens by the specification; trusted base as for C01.",
     "technique": "TLC model checking that the two-phase declaration pass is order independent (one-pass variant refuted) + "
-                 "TLC-generated renderings replayed into DomainParser / is_sub_type / ProblemParser / forall effects, judged by TLC",
+                 "TLC-generated renderings replayed into DomainParser / is_sub_type / ProblemParser / forall effects, judged by TLC; "
+                 "MC_Registry (several domains in one process, sharing mistakes refuted) with its behaviours replayed",
     "text": "MC_Types enumerates every forest, declaration order, grouping and spelling and checks that reading the "
             "declarations back yields the forest's closure; the renderings are driven through the library and every subtype "
             "answer, hierarchy edge, typed-fact acceptance and forall range is judged against the spec's reading."}
